@@ -202,7 +202,10 @@ int main(int argc, char **argv) {
         char kind = p ? p[1] : 'u';
         uint64_t plen = (len + page - 1) & ~(uint64_t)(page - 1);
         // reserve pattern pages + one trailing page, then shape the trailing page
-        uint8_t *m = mmap(NULL, plen + page, PROT_READ | PROT_WRITE, MAP_PRIVATE | MAP_ANONYMOUS, -1, 0);
+        // one page in front is left unmapped, so that what precedes the pattern pages is known
+        uint8_t *m0 = mmap(NULL, plen + 2 * page, PROT_READ | PROT_WRITE, MAP_PRIVATE | MAP_ANONYMOUS, -1, 0);
+        munmap(m0, page);
+        uint8_t *m = m0 + page;
         uint8_t *start = m + plen - len;     // region ends exactly at the end of the pattern pages
         for (uint64_t k = 0; k < plen; k++) m[k] = (uint8_t)(((uint64_t)(uintptr_t)(m + k) * 167 + 13) & 0xff);
         if (kind == 'u') munmap(m + plen, page);
